@@ -1291,3 +1291,5 @@ def check(run):
     run.rule('R8', r8_decorable_names, 'the responder-name pattern of class-level hooks covers every routable method', floor=1)
     run.rule('R9', r9_resource_from_route, 'the resource handed to resource/response methods comes from the router only', floor=2)
     run.rule('R6', r6_wiring, 'registration order and mode wiring of the prepared stacks', floor=9)
+    from . import c04 as _c04
+    run.rule('R10', _c04.r5_handler_raises_nothing, 'the handler of last resort raises nothing itself, so process_response still runs after an unexpected exception (shared with C04 R5)', floor=4)
